@@ -113,3 +113,11 @@ META["C05"] = dict(
                 "fixpoint on whatever is accepted."),
     level_note="Trusted: mediacommon's parsers as validity filters for codec blobs; reflect.DeepEqual with nil==empty normalisation.",
 )
+
+META["C20"] = dict(
+    design_ref="DESIGN.md section 4, C20",
+    technique="property-based end-to-end testing (rapid): generated URLs through a real client and server on loopback, handler-observed path/query/media compared with the URL's own components; wire tap for credentials",
+    level_text=("Exploration: generated URLs exercising every escaping / look-alike class of the property against the real client-server pair in both "
+                "directions, with per-SETUP media identity and a byte tap on the client connection."),
+    level_note="Trusted: net/url as the definition of (decoded path, raw query); loopback networking of the sandbox (127.0.0.1, ::1, localhost).",
+)
